@@ -22,6 +22,10 @@ const (
 	// EndSilentReal: the client stays silent; Read blocks until the armed
 	// deadline really passes or the conn is closed.
 	EndSilentReal
+	// EndEOFWithData: like EndEOF, but the end of the stream is reported by the very Read that
+	// returns the last bytes (n > 0 together with io.EOF), as io.Reader allows and as
+	// crypto/tls does when the peer's close_notify follows its last record. Later reads return (0, io.EOF).
+	EndEOFWithData
 )
 
 // ErrSilentForever is returned in virtual time when a read without deadline
@@ -126,10 +130,13 @@ func (c *ScriptConn) Read(p []byte) (int, error) {
 				c.segs[0] = c.segs[0][n:]
 			}
 			c.Pulled += n
+			if c.end == EndEOFWithData && len(c.segs) == 0 && c.Refill == nil {
+				return c.logRead(n, io.EOF)
+			}
 			return c.logRead(n, nil)
 		}
 		switch c.end {
-		case EndEOF:
+		case EndEOF, EndEOFWithData:
 			return c.logRead(0, io.EOF)
 		case EndSilentVirtual:
 			if !c.deadline.IsZero() {
